@@ -104,7 +104,9 @@ class Scheduler:
                     waited += self.grace
                     if self.body_done:
                         break
-                    if self.running == 0 and not self.released and self.blocked and self.moves == self.last_moves:
+                    # (running > 0 is possible here when a worker sits inside sqlite's busy handler waiting for a lock
+                    #  that a *gated* worker holds: releasing a gated worker is the only way forward)
+                    if not self.released and self.blocked and self.moves == self.last_moves:
                         self.fallbacks += 1
                         ok = True
                         break
